@@ -192,6 +192,14 @@ class ApiGen(object):
             else:
                 d = related_region(r, old, newtype)
             d["id"] = old["id"]
+            if self.prop == "C12" and self.restricted() and r.random() < 0.04:
+                # not-a-number coordinates (the JSON literal NaN, or the string "nan", both pass float()): such a
+                # region contains nothing, so it never covers the old one
+                keys = [k_ for k_ in d if k_ not in ("id", "type")]
+                for k_ in r.sample(keys, r.randrange(1, len(keys) + 1)):
+                    d[k_] = r.choice([float("nan"), "nan", "NaN"])
+                self.emit(op="api", cmd="updateExcludeRegion", data=d, kind="upd_nan")
+                return
             self.emit(op="api", cmd="updateExcludeRegion", data=d, kind=kind)
             nd = norm_region(d)
             if not self.restricted() or ref_contains(nd, old):
